@@ -235,6 +235,27 @@ def regions(src, atom_ids, host):
                     if len(lst) == j - i + 1:
                         feats.append("region:whole-block")
                 feats.append("stmts:%d" % (j - i + 1))
+                run = lst[i:j + 1]
+                # (a) a variable assigned only on some path of one statement of the region and read inside another compound
+                #     statement of the region (the value from before the region may still be needed there)
+                maybe, definite = set(), set()
+                for st in run:
+                    loads = {n.id for n in ast.walk(st) if isinstance(n, ast.Name) and isinstance(n.ctx, ast.Load)}
+                    loads |= {n.target.id for n in ast.walk(st) if isinstance(n, ast.AugAssign) and isinstance(n.target, ast.Name)}
+                    if hasattr(st, "body") and loads & (maybe - definite):
+                        feats.append("region:compound-statement-reads-a-variable-assigned-conditionally-earlier-in-the-region")
+                    stores = {n.id for n in ast.walk(st) if isinstance(n, ast.Name) and isinstance(n.ctx, ast.Store)}
+                    if isinstance(st, ast.Assign):
+                        definite |= stores
+                    elif hasattr(st, "body"):
+                        maybe |= stores
+                # (b) the region lies in a loop and assigns a variable that the loop reads before the region (next iteration)
+                for loop in ast.walk(f):
+                    if isinstance(loop, (ast.For, ast.While)) and any(x is run[0] for x in ast.walk(loop)) and loop is not run[0]:
+                        stores = {n.id for st in run for n in ast.walk(st) if isinstance(n, ast.Name) and isinstance(n.ctx, ast.Store)}
+                        before = [n for n in ast.walk(loop) if isinstance(n, ast.Name) and isinstance(n.ctx, ast.Load) and n.lineno < run[0].lineno]
+                        if stores & {n.id for n in before}:
+                            feats.append("region:in-a-loop-and-assigns-a-variable-read-earlier-in-the-loop")
                 if host == "module" or host.startswith("flat"):
                     # module-level code: every variable is a global; does the region assign one that it also reads,
                     # or that it assigns only on some paths / in a nested block?
@@ -370,7 +391,7 @@ class C03(Check):
                 variants = [("variable", dict(similar=False)), ("variable", dict(similar=True)), ("method", dict(similar=False)),
                             ("method", dict(similar=True, global_=True))]
             for what, opts in variants:
-                if "only" in case and case["only"] != [ri, what, sorted(opts.items())]:
+                if "only" in case and [case["only"][0], case["only"][1], [tuple(kv) for kv in case["only"][2]]] != [ri, what, sorted(opts.items())]:
                     continue
                 res["n"] += 1
                 ctx = self.bench.open({"xm.py": src})
